@@ -10,7 +10,7 @@ TEXT = {
             "invariant proof over the micro-step model + event correspondence"),
     "C02": ("one total order = the ghost log; per-stream segments, per-handle subsequences, claim step inside the call interval; tie: as C01 + order monitor", "invariant proof + event correspondence"),
     "C03": ("window invariant head <= pos s + N and tail-cache soundness for all reachable states; validWrap arithmetic; tie: event correspondence + window monitor", "invariant proof + event correspondence"),
-    "C04": ("slot content is stable while any thread is inside a clone/view body (pin protocol + window); tie: payload type that yields inside Clone/view/Drop and self-checks", "invariant proof + event correspondence"),
+    "C04": ("PinInv, inductive over every label: pin counter = number of consumers in a pinned section of the slot; a producer past the pin check and a consumer in a validated pinned read are never on one slot; an unpinned (sole) reader is on the current position; what a consumer read is still in the slot when it clones; the torn flag is never set (broadcast queues, F1/F12 exclusions, no futures conversions; after the repair of F16, which the proof attempt exposed); view closures and returned clones see the logged value; tie: payload type that yields inside Clone/view/Drop and self-checks, family pin with scripted schedules", "invariant proof + event correspondence"),
     "C05": ("drop-site frame (only 4 program points drop, one value each), overwritten value already consumed by every registered stream (ring invariant), both destructor loops drop each written slot / each unconsumed position exactly once (induction over the loop, any state); tie: payload birth/clone/drop ledger of the harness on every real execution + all teardown orders + sequential differential; F5/F12 known", "invariant + loop-induction proofs (Lean) + ledger monitor on real executions"),
     "C06": ("quiescent states of Core abstract to Spec states; tie: quiescent fill/drain probe after every concurrent run", "refinement at quiescence + probe"),
     "C07": ("writers = live sender handles; Disconnected implies writers = 0 and position = head at the second tag load; stable afterwards; tie: disc family + end monitor", "invariant proof + event correspondence"),
